@@ -235,22 +235,40 @@ class Span(Machine):
 class Variant(Machine):
     module = "NostdVariant"
     key = "var"
-    actions = ["AssignVal", "Emplace", "Copy", "Move", "SelfCopy", "Swap"]
+    keys = ("var", "varx")      # "varx": the throwing shape, replayed by harness/c20_varx.cc
+    actions = ["AssignVal", "Emplace", "Copy", "Move", "SelfCopy", "Swap", "AliasSelf", "AliasMember"]
+    WIT_BASIC = ["MoveTracked", "MoveString", "ReplaceTracked", "SwapDifferent", "CopyAny", "SameIndexAssign",
+                 "AliasSelfClass"]
+    # exceptions out of constructions / assignments of the alternatives, valueless variants, self-aliasing sources
+    WIT_THROWING = ["ConvThrowKeepsOld", "CopyInThrowKeepsOld", "ConvThrowValueless", "AssignSameThrows",
+                    "EmplaceThrowValueless", "CopyAssignThrowKeepsOld", "CopyAssignThrowValueless",
+                    "MoveAssignThrowValueless", "AliasMemberConverting", "AliasMemberConvertingThrows",
+                    "AliasMemberSame", "AliasSelfClass", "FromValueless", "ValuelessRefilled"]
 
-    def _c(self, hist, depth, slim):
-        return {"Hist": _b(hist), "Depth": depth, "Dev": "{}", "Slim": _b(slim)}
+    def _c(self, hist, depth, slim, shape="basic"):
+        return {"Hist": _b(hist), "Depth": depth, "Dev": "{}", "Slim": _b(slim), "Shape": '"%s"' % shape}
 
     def mc(self, ctx):
-        return [("two variants", self._c(False, 0, False), ["TypeOK", "Property"], True)]
+        return [("two variants", self._c(False, 0, False), ["TypeOK", "Property"], True),
+                ("two variants, throwing alternatives", self._c(False, 0, False, "throwing"), ["TypeOK", "Property"], True)]
 
     def gens(self, ctx):
         thorough = ctx.tier == "thorough"
-        return [dict(name="all3", consts=self._c(True, 3, True), cfgrec={}, depth=3,
-                     sim=dict(num=5000 if thorough else 500, depth=9, consts=self._c(True, 8, False), cfgrec={}),
-                     wit=["MoveTracked", "MoveString", "ReplaceTracked", "SwapDifferent", "CopyAny", "SameIndexAssign"])]
+        tdepth = 3 if thorough else 2
+        return [dict(name="all3", consts=self._c(True, 3, True), cfgrec={"shape": "basic"}, depth=3,
+                     sim=dict(num=5000 if thorough else 500, depth=9, consts=self._c(True, 8, False),
+                              cfgrec={"shape": "basic"}),
+                     wit=self.WIT_BASIC),
+                # throwing alternatives: every path of 2 (thorough: 3) operations with the faults where they fire,
+                # random walks (all source forms, faults also where they must NOT fire) beyond
+                dict(name="throwing%d" % tdepth, consts=self._c(True, tdepth, True, "throwing"),
+                     cfgrec={"shape": "throwing"}, depth=tdepth,
+                     sim=dict(num=6000 if thorough else 1200, depth=9, consts=self._c(True, 8, False, "throwing"),
+                              cfgrec={"shape": "throwing"}),
+                     wit=self.WIT_THROWING, ninst=3 if thorough else None)]
 
     def beh(self, b, cfgrec):
-        return {"m": "var", "cfg": cfgrec, "steps": b["steps"]}
+        return {"m": "varx" if cfgrec.get("shape") == "throwing" else "var", "cfg": cfgrec, "steps": b["steps"]}
 
 
 class FunctionRef(Machine):
@@ -351,7 +369,10 @@ def _pack(rec, src):
         ops[st["op"]] = ops.get(st["op"], 0) + 1
     stats = {"ops": ops, "steps": len(rec["steps"]),
              "dev_steps": sum(1 for st in rec["steps"] if st.get("dev")),
-             "plain": not any(st.get("dev") or st.get("alts") for st in rec["steps"])}
+             "plain": not any(st.get("dev") or st.get("alts") or st.get("might") for st in rec["steps"]),
+             "threw": sum(1 for st in rec["steps"] if isinstance(st.get("exp"), dict) and st["exp"].get("threw") == "T"),
+             "valueless": sum(1 for st in rec["steps"] if isinstance(st.get("exp"), dict) and rec["m"] == "varx"
+                              and "T" in (st["exp"]["v1"]["vless"], st["exp"]["v2"]["vless"]))}
     return (hashlib.sha1(body.encode()).digest(), '{"src":%s,' % json.dumps(src) + body[1:], src, stats)
 
 
@@ -389,7 +410,7 @@ def build_all():
     # vptr: nostd::shared_ptr's assignment operators call a virtual member of their own, already destroyed,
     # wrapper on EVERY self-assignment (undefined, but without an observable effect unless the pointer is the
     # only owner, which is what the deviation is about); UBSan's vptr check would abort on all of them
-    main = build.harness("c20_replay", ["c20_main.cc", "c20_sv.cc", "c20_own.cc", "c20_var.cc", "c20_fref.cc"],
+    main = build.harness("c20_replay", ["c20_main.cc", "c20_sv.cc", "c20_own.cc", "c20_var.cc", "c20_varx.cc", "c20_fref.cc"],
                          "asan", extra=["-fno-sanitize=vptr"], need_sdk=False)
     # std::span (the cross-check of the span spec) needs C++20; nostd/span.h does not depend on the level
     span = build.harness("c20_span", ["c20_main.cc", "c20_span.cc"], "asan", extra=["-std=gnu++20"], need_sdk=False)
@@ -499,6 +520,23 @@ def binding_selftest(ctx, exes, behs_by_machine, ninst):
         if "mismatch" not in kinds:
             raise Broken("binding self-test: a corrupted expectation was NOT rejected for machine %s (%s)" % (m.key, kinds))
         done[m.key] = kinds
+    # the exception dimension of the variant machine: "the operation threw and the old value is still there" -> "did not throw"
+    cand = None
+    for text, stats in behs_by_machine["var"]:
+        if '"m":"varx"' in text and stats["plain"]:
+            b = json.loads(text)
+            if b["steps"][-1]["exp"]["threw"] == "T":
+                cand = b
+                break
+    if cand is None:
+        raise Broken("binding self-test: no throwing variant behaviour to corrupt")
+    cand["steps"][-1]["exp"]["threw"] = "F"
+    cand["id"] = 0
+    recs, _ = run_harness(ctx, exes["main"], [cand], 1, "selftest-varx", shards=1)
+    kinds = sorted(set(x["r"] for x in recs))
+    if "mismatch" not in kinds:
+        raise Broken("binding self-test: a corrupted 'threw' expectation was NOT rejected (%s)" % kinds)
+    done["varx"] = kinds
     ctx.extra["binding_selftest"] = done
 
 
@@ -512,7 +550,9 @@ def run(ctx):
         "self move-assignment of a smart pointer is a don't-care band (valid but unspecified: unchanged or emptied); "
         "out-of-range operator[] / static-extent mismatch of span and invoking a null function_ref are undefined in std and not exercised",
         "operations nostd does not offer (string_view <=,>=,rfind..., span::subspan/first/last, shared_ptr::reset/use_count, "
-        "function_ref assignment, valueless variants) are outside the shared interface and not checked",
+        "function_ref assignment) are outside the shared interface and not checked; exceptions are injected only into the "
+        "alternatives' own constructors/assignment operators (first potentially-throwing call of an operation), never into swap "
+        "or variant construction; where the standard says the variant MIGHT become valueless both outcomes are accepted",
         "memory safety is not decided by the specifications: it is covered only as a by-product (ASan/UBSan on every replay, exact-size heap buffers)",
     ]
     ctx.extra["rule"] = ("states/transitions: TLC (exhaustive state graphs of the five machines + path-enumeration runs, where every "
@@ -529,7 +569,8 @@ def run(ctx):
         for text, stats in all_behs[m.key]:
             nid += 1
             t = '{"id":%d,' % nid + text[1:]
-            by_id[(m.key, nid)] = t
+            for k in getattr(m, "keys", (m.key,)):     # the harness reports the behaviour's own "m" field
+                by_id[(k, nid)] = t
             lst.append(t)
             if stats["steps"] >= 2 or m.key == "sv":
                 ctx.distinct.add(nid)
@@ -554,6 +595,9 @@ def run(ctx):
     # which side of the self-move-assignment don't-care band the real types take (recorded, never judged)
     ctx.extra["self_move_assign_outcomes_observed"] = {"unchanged": totals.get("alt_took_unchanged", 0),
                                                        "released_what_it_owned": totals.get("alt_took_released", 0)}
+    # which side of "the variant might not hold a value" nostd::variant takes after an exception out of a direct emplace
+    ctx.extra["var_emplace_exception_outcomes_observed"] = {"valueless": totals.get("emplace_threw_valueless", 0),
+                                                            "value_kept": totals.get("emplace_threw_kept", 0)}
     ctx.extra["concretisations_per_behaviour"] = ninst
     ops = {}
     for m in MACHINES:
@@ -562,6 +606,11 @@ def run(ctx):
             for k, v in stats["ops"].items():
                 o[k] = o.get(k, 0) + v
     ctx.extra["replayed_operation_counts"] = ops
+    # the exception dimension of the variant machine really is in the replay set (measured)
+    ctx.extra["var_steps_with_injected_exception"] = sum(st["threw"] for _, st in all_behs["var"])
+    ctx.extra["var_steps_observing_a_valueless_variant"] = sum(st["valueless"] for _, st in all_behs["var"])
+    if ctx.extra["var_steps_with_injected_exception"] == 0 or ctx.extra["var_steps_observing_a_valueless_variant"] == 0:
+        raise Broken("vacuity: the replay set contains no throwing variant operation / no valueless variant")
     # rare conditions really present in the replay set (measured, not assumed)
     ctx.extra["own_self_copy_sole_owner_steps"] = sum(st["dev_steps"] for _, st in all_behs["own"])
     ctx.extra["own_self_move_steps"] = ops["own"].get("AssignMoveSelf", 0)
@@ -589,7 +638,7 @@ def replay(ctx, path):
     if not b:
         raise Broken("replay file has no behaviour")
     exes = build_all()
-    m = [x for x in MACHINES if x.key == b["m"]][0]
+    m = [x for x in MACHINES if b["m"] in getattr(x, "keys", (x.key,))][0]
     ctx.seed = int(json.load(open(path)).get("seed", ctx.seed))     # same concretisations as the failing run
     for (name, consts, invs, cover) in m.mc(ctx):                  # the machine still states the property
         mc_job(ctx, m, name, consts, invs, False)
